@@ -31,7 +31,8 @@ class World(object):
         ret = None if not rets else (rets[0] if len(rets) == 1 else rets)
 
         def returns(args):
-            vals = [S.to_instance(self.gen, t, v) for t, v in zip(case['rets'], case['rvals'])]
+            memo = {} if case.get('shared') else None
+            vals = [S.to_instance(self.gen, t, v, memo=memo) for t, v in zip(case['rets'], case['rvals'])]
             if not vals: return None
             return vals[0] if len(vals) == 1 else tuple(vals)
         m = {'name': case['method'], 'args': [[f['n'], S.texpr(f['t'], f)] for f in case['args']],
